@@ -284,10 +284,15 @@ def re_lead_hash(x):
 def edit_ssc(rng, sf, nops):
     from simfile.ssc import SSCChart
     attrs = ["title", "artist", "version", "bgchanges", "attacks", "displaybpm", "labels"]
-    cattrs = ["stepstype", "credit", "chartname", "attacks", "displaybpm", "bpms", "radarvalues"]
+    cattrs = ["stepstype", "credit", "chartname", "attacks", "displaybpm", "bpms", "radarvalues", "description", "difficulty", "meter"]
     for _ in range(nops):
         r = rng.random()
-        if r < 0.22:
+        if r < 0.03:
+            # VERSION values a reader might interpret (old, current, future, exponent form): still just a value
+            sf["VERSION"] = rng.choice(["0.5", "0.53", "0.58", "0.59", "0.69", "0.7", "0.70", "0.83", "1", "0", "1e-3", "2.0"])
+            if rng.random() < 0.5:
+                sf.move_to_end("VERSION", last=False)
+        elif r < 0.22:
             k = rng.choice(list(sf.keys())) if sf and rng.random() < 0.5 else cc.rand_key(rng, forbid=("NOTEDATA",))
             if k == "NOTEDATA":
                 continue
